@@ -23,14 +23,16 @@ ENV = {"PYTHONIOENCODING": "utf-8", "TZ": "IST-5:30"}     # a local time zone th
 # ---------------------------------------------------------------------------------------------------------------------
 # witnesses.  Field-name slots as in Readers.tla (NameClass): every witness of slot n sorts before every witness of n+1.
 NAMES = {
-    1: ["", " ", " lead", "  two"],
-    2: ["0day", "42", "1st"],
+    1: ["", " ", " lead", "  two", "%", "%s", "%%", "%d items", "%(x)s"],
+    2: ["0day", "42", "1st", "100%", "50%% off"],
     3: ["Zeta", "KEY", "CamelCase"],
     4: ["_private", "__x", "_"],
-    5: ["alpha", "count", "key", "b", "extra_info", "action_type2", "message_type_x", "action_status_", "level"],
+    5: ["alpha", "count", "key", "b", "extra_info", "action_type2", "message_type_x", "action_status_", "level", "a % b", "dir\\name",
+        "a%sb"],
     6: ["name", "path", "result", "n", "query", "port"],
     7: ["task_uuid2", "timestamps", "task_level_", "task", "task_uuid ", "timestamp_"],
-    8: ["x=y", "w: z", "y y", "u\"q", "v'q", "x|y", "z{", "u,v", "w=\"1\"", "x\ty", "v=[1, 2]", "u=1 v", "x:"],
+    8: ["x=y", "w: z", "y y", "u\"q", "v'q", "x|y", "z{", "u,v", "w=\"1\"", "x\ty", "v=[1, 2]", "u=1 v", "x:", "{}", "{0}", "u%", "x%(y)s", "w%%",
+        "{name}", "y\\z"],
     9: ["~a\nb", "~a\rb", "~\n", "~x\r\ny"],
     10: ["\u043a\u043b\u044e\u0447", "\u952e", "\u00e9a", "\u65e5\u672c\u8a9e", "\U0001f600emoji", "\u00f1ame"],
 }
@@ -47,16 +49,19 @@ VALUES = {
     "nested": [{"a": 1, "b": [1, 2, {"c": None}]}, [], {}, [[]], {"k": {"k2": {"k3": "deep leaf"}}}, [1, "two", 3.5, True, None],
                {"": 0}, {"list": list(range(100, 130))}, {"text": "multi\nline in nested"}, [{"x": "a\tb"}, {"y": [False, 0.0]}],
                {"z": 7001, "a": "leafA", "m": {"q": 7002, "b": ["leafB", 7003]}}, [""], {"k": []},
-               {"\u00fcml": "\u00e4\u00f6", "long key with spaces": "v"}],
+               {"\u00fcml": "\u00e4\u00f6", "long key with spaces": "v"}, {"pct": "100%", "%d": ["%s", "50%% off"]}, ["%", {"{}": "{0}"}],
+               {"a % b": {"%(x)s": "%%"}}, ["C:\\dir", {"\\": "%5.2f"}]],
     "number": [0, 1, -1, 42, 3.14, -0.5, 1e100, 2 ** 63, 2 ** 64 + 1, 1.5e-07, 0.0, 123456789.123, -17, 1e-300, 255],
     "bool": [True, False],
     "null": [None],
+    "meta": ["%", "%%", "%s", "%d items", "50%% off", "100%", "%(x)s", "a % b", "{}", "{0}", "{name}", "{{}}", "100% {sure} \\o/",
+             "C:\\dir\\file", "\\", "%5.2f", "$HOME ${x}", "%\u00e9", "%r and %%s", "{!r:>{width}}", "a\\\\b", "\\x41 \\u00e9"],
     "nonascii": ["h\u00e9llo", "\u65e5\u672c\u8a9e\u30c6\u30ad\u30b9\u30c8", "emoji \U0001f600 here", "\u00dcn\u00efc\u00f6d\u00e9",
                  "mixed ascii \u0438 \u043a\u0438\u0440\u0438\u043b\u043b\u0438\u0446\u0430", "line\u2028sep", "nbsp\u00a0here", "\u0080ctl",
                  "lone\ud800surrogate", "\u00e9\n\u00e8"],
 }
-FIRST_VALUES = {"action_type": ["app:task", "sys:io:read", "t", "\u0442\u0438\u043f:x"],
-                "message_type": ["app:event", "my:message", "eliot:traceback", ""],
+FIRST_VALUES = {"action_type": ["app:task", "sys:io:read", "t", "\u0442\u0438\u043f:x", "app:100%", "app:{}"],
+                "message_type": ["app:event", "my:message", "eliot:traceback", "", "app:%s"],
                 "action_status": ["started", "succeeded", "failed"]}
 LEVELS = [[1], [2], [1, 1], [3, 2], [2, 1, 4, 1], [7, 10, 3], [12], [1, 2, 3, 4, 5, 6]]
 STAMPS = [1700000000.0, 1700000000.123456, 0.0, 0.5, 1000000000.000001, 1234567890.9999996, 1700000000, 4102444800.25, 86399.999999,
@@ -472,7 +477,7 @@ def emitted_chunk(args):
         if not any(has_linebreak(k) for k in msg):
             out["lines"].append(msg)
     fr = res["filter"][0]
-    for how in ("run", "main"):
+    for how in ("run", "run_text", "main"):
         errs = judge_filter_output(fr[how], fr[how + "_exc"], [(m, "whole") for m in msgs])
         for e in errs[:2]:
             out["filter_viol"].append({"clause": "eliot.filter J (%s) on messages emitted by real Eliot calls: %s" % (how, e),
@@ -607,7 +612,12 @@ EXPR = {"J": "J",
         "J_if_sel": "J if J.get('message_type') == 'my:message' else SKIP",
         "skip_if_sel": "SKIP if J.get('message_type') == 'my:message' else J",
         "fld_if_has": "J['field'] if 'field' in J else SKIP",
-        "get_if_sel": "J.get('field') if J.get('message_type') == 'my:message' else SKIP"}
+        "get_if_sel": "J.get('field') if J.get('message_type') == 'my:message' else SKIP",
+        "upd": "J.update(host='x') or J",
+        "pop": "[J.pop('field', None), J][1]",
+        "setdef": "[J.setdefault('field', 'dflt'), J][1]",
+        "setitem": "J.__setitem__('field', 'new') or J",
+        "copy": "dict(J)"}
 FALSY = [0, "", [], {}, False, None, 0.0]
 TRUTHY = [1, "text", [0], {"a": None}, True, 2.5, "multi\nline", "\u00fc", [[]], "0", -1, {"": ""}]
 
@@ -636,6 +646,14 @@ def draw_filter_message(sel, fld, rng):
 
 
 def expected_value(msg, what):
+    if what == "whole_upd":
+        return dict(msg, host="x")
+    if what == "whole_pop":
+        return {k: v for k, v in msg.items() if k != "field"}
+    if what == "whole_setdef":
+        return dict(msg, field="dflt")
+    if what == "whole_setitem":
+        return dict(msg, field="new")
     return {"whole": msg, "field": msg.get("field"), "null": None, "uuid": msg["task_uuid"]}[what]
 
 
@@ -711,8 +729,8 @@ def run(prop, tier):
     _t("start")
     quick = tier == "quick"
     rep.cov["rule"] = ("cases = every record TLC prints for Readers.tla: (layout) which of action_type/message_type/action_status are present x "
-                       "sets of <=3 further fields (10 field-name classes x 8 value classes); (pp) every stream of <=MaxLines lines over 8 "
-                       "line classes x {pretty, compact}; (filter) every stream of <=MaxLines lines over 6 message classes x 7 expression "
+                       "sets of <=3 further fields (10 field-name classes x 9 value classes); (pp) every stream of <=MaxLines lines over 8 "
+                       "line classes x {pretty, compact}; (filter) every stream of <=MaxLines lines over 6 message classes x 12 expression "
                        "classes; each instantiated with seeded concrete witnesses and executed on the real functions / command-line entry "
                        "points, plus messages produced by real Eliot calls.  distinct = distinct abstract record; non-trivial = at least "
                        "one field besides the header (layout) / at least one line (streams)")
@@ -767,7 +785,7 @@ def run(prop, tier):
 
         # ---- (a) layout -------------------------------------------------------------------------------------------------
         size = 1500 if quick else 4000
-        chunks = [(lay[i:i + size], rng.randrange(10 ** 9), (2, 2) if quick else (6, 3)) for i in range(0, len(lay), size)]
+        chunks = [(lay[i:i + size], rng.randrange(10 ** 9), (2, 1) if quick else (6, 3)) for i in range(0, len(lay), size)]
         emitted = [(rng.randrange(10 ** 9), 40 if quick else 250) for _ in range(8 if quick else 48)]
         pool = []
         f6_count = 0
@@ -890,7 +908,7 @@ def run(prop, tier):
                 msgs = [draw_filter_message(s, f, frng) for s, f in stream]
                 fcases.append({"expr": expr, "stream": stream, "out": out, "msgs": msgs, "lines": filter_lines(msgs, frng), "w": w})
         fres = exec_jobs({"filter": [{"expr": EXPR[c["expr"]], "lines": c["lines"]} for c in fcases]})["filter"]
-        cli = [c for c in fcases if c["w"] == 0 and (len(c["stream"]) < (2 if quick else ml) or frng.randrange(20 if quick else 6) == 0)]
+        cli = [c for c in fcases if c["w"] == 0 and (len(c["stream"]) < (2 if quick else ml) or frng.randrange(40 if quick else 8) == 0)]
         with ThreadPoolExecutor(WORKERS) as ex:
             cli_res = list(ex.map(lambda c: run_filter_cli(EXPR[c["expr"]], c["lines"]), cli))
         for c, r in zip(cli, cli_res):
@@ -899,7 +917,8 @@ def run(prop, tier):
             expected = [(c["msgs"][i - 1], what) for i, what in c["out"]]
             rep.count_case(["filter", c["expr"], c["stream"]], True)
             rep.cov["traces_validated_against_impl"] += 1
-            hows = [("EliotFilter.run", r["run"], r["run_exc"]), ("filter.main", r["main"], r["main_exc"])]
+            hows = [("EliotFilter.run on bytes lines", r["run"], r["run_exc"]), ("EliotFilter.run on text lines", r["run_text"], r["run_text_exc"]),
+                    ("filter.main", r["main"], r["main_exc"])]
             if "cli" in c:
                 hows.append(("python -m eliot.filter", c["cli"][0], c["cli"][1]))
             for how, text, exc in hows:
@@ -960,7 +979,7 @@ def replay(prop, obj, path):
         r = exec_jobs({"filter": [{"expr": obj["expr"], "lines": obj["lines"]}]})["filter"][0]
         cli = run_filter_cli(obj["expr"], obj["lines"])
         print("expression %r on %d lines; EliotFilter.run wrote %r" % (obj["expr"], len(obj["lines"]), r["run"] if r["run"] is not None else r["run_exc"]))
-        for text, exc in ((r["run"], r["run_exc"]), (r["main"], r["main_exc"]), cli):
+        for text, exc in ((r["run"], r["run_exc"]), (r["run_text"], r["run_text_exc"]), (r["main"], r["main_exc"]), cli):
             bad.extend(judge_filter_output(text, exc, expected))
     else:
         print("unknown replay kind %r" % kind)
